@@ -1,25 +1,66 @@
-"""Worker for C19: run in a FRESH interpreter with a given PYTHONHASHSEED; prints one JSON line per input molecule."""
+"""Worker for C19: run in a FRESH interpreter with a given PYTHONHASHSEED; prints one JSON line per input molecule.
+
+Per molecule:
+  out            every listed output, evaluated in a fixed order on a freshly parsed object (compared ACROSS seeds by the parent)
+  cached_differs outputs whose value depends on evaluation history inside this process:
+                   k:first   k evaluated first on a fresh object differs from k evaluated after the others
+                   k:perm    random evaluation order (seeded) differs
+                   k:again   second (cached) evaluation on the same object differs
+  copy_differs   outputs that differ between an object and its copy: plain, and after each public operation
+                   (canonicalize / standardize / kekule+thiele / explicify+implicify / neutralize) applied to an object whose
+                   caches were primed first — `op:k`
+The history / copy variations are seed independent, so they run only when spec['variations'] is true (first worker).
+"""
 import json
+import random
 import sys
 
 
-def compute(m, queries):
+def observables(queries):
+    def matches(m):
+        return [[sorted(d.items()) for d in q.get_mapping(m, automorphism_filter=False)][:200] for q in queries]
+
+    def pack(m):
+        try:
+            return m.pack(compressed=False).hex()
+        except Exception as e:  # format limits
+            return 'error:' + type(e).__name__
+
+    return {
+        'canon': lambda m: str(m),
+        'order': lambda m: sorted(m.atoms_order.items()),
+        'smiles_order': lambda m: list(m.smiles_atoms_order),
+        'sssr': lambda m: [list(r) for r in m.sssr],
+        'ring_marks': lambda m: [(n, a.in_ring, sorted(a.ring_sizes)) for n, a in m.atoms()],
+        'components': lambda m: [sorted(c) for c in m.connected_components],
+        'lin_hash': lambda m: sorted(m.linear_hash_set()),
+        'lin_bits': lambda m: sorted(m.linear_bit_set()),
+        'morgan_hash': lambda m: sorted(m.morgan_hash_set()),
+        'morgan_bits': lambda m: sorted(m.morgan_bit_set()),
+        'matches': matches,
+        'pack': pack,
+        'hash_eq': lambda m: [n for n, a in m.atoms() if a.stereo is not None] + [sorted((n, k)) for n, k, b in m.bonds() if b.stereo is not None],
+    }
+
+
+def evaluate(m, obs, order=None):
     out = {}
-    out['canon'] = str(m)
-    out['order'] = sorted(m.atoms_order.items())
-    out['smiles_order'] = list(m.smiles_atoms_order)
-    out['sssr'] = [list(r) for r in m.sssr]
-    out['components'] = [sorted(c) for c in m.connected_components]
-    out['lin_hash'] = sorted(m.linear_hash_set())
-    out['lin_bits'] = sorted(m.linear_bit_set())
-    out['morgan_hash'] = sorted(m.morgan_hash_set())
-    out['morgan_bits'] = sorted(m.morgan_bit_set())
-    out['matches'] = [[sorted(d.items()) for d in q.get_mapping(m, automorphism_filter=False)][:200] for q in queries]
-    try:
-        out['pack'] = m.pack(compressed=False).hex()
-    except Exception as e:  # format limits
-        out['pack'] = 'error:' + type(e).__name__
+    for k in (order or list(obs)):
+        try:
+            out[k] = obs[k](m)
+        except Exception as e:
+            out[k] = 'raised:' + type(e).__name__
     return out
+
+
+OPS = {
+    'canonicalize': lambda m: m.canonicalize(),
+    'standardize': lambda m: m.standardize(),
+    'kekule_thiele': lambda m: (m.kekule(), m.thiele()),
+    'explicify_implicify': lambda m: (m.explicify_hydrogens(), m.implicify_hydrogens()),
+    'neutralize': lambda m: m.neutralize(),
+    'clean_stereo_noop': lambda m: m.fix_stereo(),
+}
 
 
 def main():
@@ -28,23 +69,46 @@ def main():
     from chython import smiles, smarts
     spec = json.load(open(sys.argv[1]))
     queries = [smarts(q) for q in spec['queries']]
+    obs = observables(queries)
+    keys = list(obs)
     for s in spec['smiles']:
         rec = {'smiles': s}
         try:
-            m = smiles(s)
-            first = compute(m, queries)          # uncached
-            second = compute(m, queries)         # cached
-            cp = compute(m.copy(), queries)      # copy
-            rec['out'] = first
-            rec['cached_differs'] = [k for k in first if first[k] != second[k]]
-            rec['copy_differs'] = [k for k in first if first[k] != cp[k]]
-            c = m.copy()
+            base = evaluate(smiles(s), obs)
+            rec['out'] = base
+            rec['cached_differs'], rec['copy_differs'] = [], []
+            c = smiles(s)
             c.canonicalize()
             rec['out']['standardized'] = str(c)
-            c2 = smiles(s)
-            c2.canonicalize()
-            if str(c2) != rec['out']['standardized']:
-                rec['copy_differs'].append('standardized')
+            if spec.get('variations'):
+                rng = random.Random(spec.get('rng', 0) ^ hash(len(s)))
+                for k in keys:  # k first on a fresh object
+                    v = evaluate(smiles(s), obs, [k])[k]
+                    if v != base[k]:
+                        rec['cached_differs'].append(k + ':first')
+                perm = keys[:]
+                rng.shuffle(perm)
+                m = smiles(s)
+                pv = evaluate(m, obs, perm)
+                rec['cached_differs'] += [k + ':perm' for k in keys if pv[k] != base[k]]
+                again = evaluate(m, obs)
+                rec['cached_differs'] += [k + ':again' for k in keys if again[k] != base[k]]
+                cp = evaluate(m.copy(), obs)
+                rec['copy_differs'] += ['plain:' + k for k in keys if cp[k] != base[k]]
+                if not (m == m.copy()) or hash(m) != hash(m.copy()):
+                    rec['copy_differs'].append('plain:eq_hash')
+                for name, op in OPS.items():
+                    m = smiles(s)
+                    evaluate(m, obs, perm)  # prime every cache
+                    try:
+                        op(m)
+                    except Exception as e:
+                        continue  # the operation rejecting this molecule is not C19's concern
+                    a = evaluate(m, obs)
+                    b = evaluate(m.copy(), obs)
+                    rec['copy_differs'] += [f'{name}:{k}' for k in keys if a[k] != b[k]]
+                    if not (m == m.copy()):
+                        rec['copy_differs'].append(f'{name}:eq_hash')
         except Exception as e:
             rec['error'] = type(e).__name__ + ': ' + str(e)[:100]
         print(json.dumps(rec))
